@@ -279,6 +279,12 @@ def run(prog, rep):
         "before it may still refuse is never given the live handle with a request-derived receiver; early-rejections: "
         "the refusals that are early today stay ahead of the first effect."
     )
+    # the refused block object itself must come back unchanged from the serialisation that refused it
+    from ..codecs import no_stale_derived_state
+    rep.attempt(no_stale_derived_state, prog, cd, rep)
+    # .. and a refusal does not touch the session's access state (the next valid operation of the session is admitted as before)
+    from .c08 import mode_lifecycle
+    rep.attempt(mode_lifecycle, ct, rep)
     n_early, n_funcs = path_rules(ct, cd, rep)
     rep.attempt(object_state_before_refusal, ct, rep)
     # the read-only refusal must come before the in-memory table changes (the handle refuses the write, but only after that)
